@@ -111,11 +111,19 @@ pub fn run_c07(cfg: &Cfg) -> Report {
     }
     let nk = PREFIXED_KINDS.len() as u64;
     let ns = sizes.len() as u64;
-    rep.merge(par_cases(cfg, "pkglen.callsites", nk * ns, |cx| {
-        let k = (cx.idx / ns) as usize;
+    // path shapes for the kinds that carry a name: (rooted, segments)
+    let shapes: [(bool, usize); 6] = [(false, 1), (true, 1), (false, 2), (true, 2), (false, 3), (true, 7)];
+    rep.merge(par_cases(cfg, "pkglen.callsites", nk * ns * 6, |cx| {
+        let shape = (cx.idx / (nk * ns)) as usize;
+        let k = ((cx.idx / ns) % nk) as usize;
         let pad = sizes[(cx.idx % ns) as usize];
+        let has_path = matches!(k, 4 | 5 | 6 | 7 | 8 | 14);
+        if shape > 0 && !has_path {
+            return;
+        }
         let mut r = cx.rng.clone();
-        let t = padded(k, pad, &mut r);
+        let (root, nseg) = shapes[shape];
+        let t = padded_with_path(k, pad, &mut r, root, nseg);
         let bytes = build_bytes(&t, false);
         cx.eval();
         cx.obs();
@@ -137,7 +145,7 @@ pub fn run_c07(cfg: &Cfg) -> Report {
             return;
         }
         cx.rep.cov(&format!("callsite:{}:width{}", PREFIXED_KINDS[k], w));
-        cx.rep.distinct(&(k, content));
+        cx.rep.distinct(&(k, content, shape));
     }));
     // (c) field-entry widths through the public API
     let mut widths: Vec<usize> = (0..=300).collect();
@@ -903,22 +911,29 @@ pub fn run_c16(cfg: &Cfg) -> Report {
             }
         }));
     }
-    // malformed EISA
-    rep.merge(par_cases(cfg, "eisa.malformed", 3 + 4 * 4 * 8, |cx| {
+    // malformed EISA: wrong lengths, and EVERY non-hex ASCII byte at each of the four digit positions
+    let non_hex: Vec<u8> = (0u8..128).filter(|c| !(*c as char).is_ascii_hexdigit()).collect();
+    let nnh = non_hex.len() as u64;
+    rep.exhaustive("C16 malformed: every non-hex ASCII byte at every EISA digit position and every UUID nibble position; every non-'-' ASCII byte at every UUID separator position");
+    rep.merge(par_cases(cfg, "eisa.malformed", 8 + 4 * nnh, |cx| {
         let mut r = cx.rng.clone();
         let good = gen_eisa(&mut r);
-        let s: String = if cx.idx < 3 {
+        let s: String = if cx.idx < 8 {
             match cx.idx {
                 0 => String::new(),
                 1 => good[..6].to_string(),
-                _ => format!("{}0", good),
+                2 => format!("{}0", good),
+                3 => good[..3].to_string(),
+                4 => format!("{}{}", good, good),
+                5 => format!("{}\u{ff10}{}", &good[..3], &good[4..]), // full-width digit zero
+                6 => format!("{}\u{e9}{}", &good[..3], &good[5..]),   // 2-byte char keeping the byte length at 7
+                _ => format!(" {}", &good[..6]),
             }
         } else {
-            let i = (cx.idx - 3) as usize;
-            let pos = 3 + (i / 32) % 4;
-            let bad = [b'G', b'g', b'-', b' '][(i / 8) % 4];
+            let i = cx.idx - 8;
+            let pos = 3 + (i / nnh) as usize;
             let mut b = good.into_bytes();
-            b[pos] = bad;
+            b[pos] = non_hex[(i % nnh) as usize];
             String::from_utf8(b).unwrap()
         };
         cx.eval();
@@ -970,23 +985,32 @@ pub fn run_c16(cfg: &Cfg) -> Report {
             }
         }
     }));
-    // malformed UUID
-    rep.merge(par_cases(cfg, "uuid.malformed", 2 + 4 + 32 * 4, |cx| {
+    // malformed UUID: wrong lengths; every non-'-' ASCII byte at each separator position; every
+    // non-hex ASCII byte at each nibble position
+    let non_dash: Vec<u8> = (0u8..128).filter(|c| *c != b'-').collect();
+    let nnd = non_dash.len() as u64;
+    rep.merge(par_cases(cfg, "uuid.malformed", 6 + 4 * nnd + 32 * nnh, |cx| {
         let mut r = cx.rng.clone();
         let good = gen_uuid(&mut r);
-        let s: String = if cx.idx == 0 {
-            good[..35].to_string()
-        } else if cx.idx == 1 {
-            format!("{}0", good)
-        } else if cx.idx < 6 {
-            let pos = [8, 13, 18, 23][(cx.idx - 2) as usize];
+        let s: String = if cx.idx < 6 {
+            match cx.idx {
+                0 => good[..35].to_string(),
+                1 => format!("{}0", good),
+                2 => String::new(),
+                3 => good.replace('-', ""),
+                4 => format!("{{{}}}", good),
+                _ => format!("{}\u{ff11}{}", &good[..1], &good[2..]),
+            }
+        } else if cx.idx < 6 + 4 * nnd {
+            let i = cx.idx - 6;
+            let pos = [8usize, 13, 18, 23][(i / nnd) as usize];
             let mut b = good.into_bytes();
-            b[pos] = b'0';
+            b[pos] = non_dash[(i % nnd) as usize];
             String::from_utf8(b).unwrap()
         } else {
-            let i = (cx.idx - 6) as usize;
-            let nib = i / 4;
-            let bad = [b'-', b'g', b'G', b' '][i % 4];
+            let i = cx.idx - 6 - 4 * nnd;
+            let nib = (i / nnh) as usize;
+            let bad = non_hex[(i % nnh) as usize];
             let mut b = good.into_bytes();
             let mut k = 0;
             for j in 0..b.len() {
